@@ -95,47 +95,126 @@ theorem C14_mode_total_fails_upstream : ¬ ModeTotal cfgUpstream := by
 theorem cfg_good_scan : cfg.GoodScan := by
   constructor <;> decide
 
+theorem cfg_good_access : cfg.GoodAccess := by
+  constructor <;> decide
+
 /-- **open_files is exact**, for every process state: over the kernel's rendering of ANY
     descriptor table (any number of descriptors of the six kinds, any offsets and flag words,
-    any fdinfo tail, any subset closing at either stage with either errno, the process
-    possibly gone before the call or dying at any point of the scan) the call returns exactly
-    the still-open descriptors that point to a regular file by absolute path — number,
-    offset (decimal), flags (octal) and implied mode — or NoSuchProcess when the process
-    vanished. -/
+    any fdinfo tail, any subset closing at either stage with either errno, any subset that the
+    monitor is refused to inspect — at the readlink, at the `os.stat` of the target, at the
+    open of fdinfo —, the descriptor directory itself refused, the process a zombie, possibly
+    gone before the call or dying at any point of the scan) the call returns exactly the
+    still-open descriptors that point to a regular file by absolute path — number, offset
+    (decimal), flags (octal) and implied mode —, AccessDenied when the monitor was refused, or
+    NoSuchProcess when the process vanished. -/
 theorem C14_open_files_exact (w : World) (hwf : ∀ d ∈ w.fds, WFFd w.fs d) :
     openFiles cfg w.fs (renderWorld w) = expectedOpenFiles w := by
   have hg := cfg_good_scan
-  unfold openFiles openFilesBody renderWorld expectedOpenFiles World.vanished
+  have ha := cfg_good_access
+  unfold openFiles openFilesBody renderWorld expectedOpenFiles World.denied World.vanished
   cases hgb : w.goneBefore with
-  | true => simp [goneExc, wrap, wrapExc]
+  | true => simp [fileExc, goneExc, wrap, wrapExc]
   | false =>
     simp only [Bool.false_eq_true, if_false, Bool.false_or]
-    cases hda : w.diesAt with
-    | none =>
-      simp only [World.seen, hda]
-      rw [scan_render cfg hg C14_mode_total w.fs w.fds hwf]
-      simp [wrap]
-    | some k =>
-      simp only [World.seen, hda]
-      rw [scan_render cfg hg C14_mode_total w.fs _ (killFrom_wf w.fs k w.fds hwf)]
-      by_cases hk : k < w.fds.length
-      · simp [hk, killFrom_hits w.fs k w.fds hk, hg.finalAliveCheck, wrap, wrapExc]
-      · rw [killFrom_ge k w.fds (by omega)]
-        simp [hk, wrap]
+    cases hdd : w.dirDenied with
+    | true => simp [fileExc, wrap, wrapExc, ha.wrapPermAD]
+    | false =>
+      simp only [Bool.false_eq_true, if_false, Bool.false_or]
+      cases hda : w.diesAt with
+      | none =>
+        simp only [World.seen, hda]
+        rw [scan_render cfg hg ha C14_mode_total w.fs w.fds hwf]
+        cases List.any w.fds (deniedFd w.fs) <;> simp [wrap, wrapExc, ha.wrapPermAD]
+      | some k =>
+        simp only [World.seen, hda]
+        rw [scan_render cfg hg ha C14_mode_total w.fs _ (killFrom_wf w.fs k w.fds hwf)]
+        cases List.any (killFrom k w.fds) (deniedFd w.fs) with
+        | true => simp [wrap, wrapExc, ha.wrapPermAD]
+        | false =>
+          by_cases hk : k < w.fds.length
+          · simp [hk, killFrom_hits w.fs k w.fds hk, hg.finalAliveCheck, wrap, wrapExc]
+          · rw [killFrom_ge k w.fds (by omega)]
+            simp [hk, wrap]
 
 /-- a process that stays alive during the call -/
 def Live (w : World) : Prop := w.goneBefore = false ∧ w.diesAt = none
+
+/-- nothing is refused to the monitor -/
+def Inspectable (w : World) : Prop := w.denied = false
 
 /-- **closing descriptors never fail the call for a live process**: whatever subset of the
     descriptors closes, at whichever stage (before the readlink, before fdinfo is opened, or
     after it was opened so that its first or second read fails), with ENOENT or ESRCH, the call succeeds, and what
     it reports is exactly what it would report if the closing descriptors had never been
     listed. -/
-theorem C14_closing_fd_never_fails (w : World) (hl : Live w) (hwf : ∀ d ∈ w.fds, WFFd w.fs d) :
+theorem C14_closing_fd_never_fails (w : World) (hl : Live w) (hi : Inspectable w)
+    (hwf : ∀ d ∈ w.fds, WFFd w.fs d) :
     openFiles cfg w.fs (renderWorld w)
       = .ok ((w.fds.filter fun d => d.closesAt.isNone).filterMap (listed w.fs)) := by
   rw [C14_open_files_exact w hwf, ← listed_filter_open]
-  simp [expectedOpenFiles, World.vanished, hl.1, hl.2]
+  unfold Inspectable at hi
+  simp [expectedOpenFiles, World.vanished, hl.1, hl.2, hi]
+
+/-- **refused ⇒ AccessDenied(pid)**: when the descriptor directory may not be listed, or any
+    descriptor met while the process is still there may not be inspected (EACCES / EPERM from
+    its readlink, from the `os.stat` of its target, from the open of its fdinfo), the answer is
+    AccessDenied — never a bare PermissionError, never a list that silently lacks an entry. -/
+theorem C14_denied_is_AccessDenied (w : World) (hwf : ∀ d ∈ w.fds, WFFd w.fs d)
+    (hg : w.goneBefore = false) (hd : w.denied = true) :
+    openFiles cfg w.fs (renderWorld w) = .exc .accessDenied := by
+  rw [C14_open_files_exact w hwf]
+  simp [expectedOpenFiles, hg, hd]
+
+/-- the reading "a descriptor that cannot be inspected is left out and the call succeeds",
+    at full strength, for an arbitrary configuration -/
+def UninspectableSkipped_Full (c : Cfg) : Prop :=
+  ∀ w : World, Live w → w.dirDenied = false → (∀ d ∈ w.fds, WFFd w.fs d) →
+    openFiles c w.fs (renderWorld w)
+      = .ok ((w.fds.filter fun d => !deniedFd w.fs d).filterMap (listed w.fs))
+
+/-- file system in which `/f` is a regular file and `os.stat("/s/x")` is refused -/
+def fsDen : FS :=
+  { isFile := fun p => p == [47, 102], pathExists := fun p => p == [47, 102],
+    denied := fun p => p == [47, 115, 47, 120] }
+
+/-- live process: `3 -> /f` (regular, inspectable) and `4 -> /s/x` (target cannot be stat'ed) -/
+def wDen : World :=
+  { fds := [⟨3, .regular [47, 102] false, 0, 2, [], none, none⟩,
+            ⟨4, .regular [47, 115, 47, 120] false, 0, 2, [], none, none⟩]
+    fs := fsDen, goneBefore := false, diesAt := none }
+
+/-- … the code does NOT have that reading: one target the monitor cannot stat makes the whole
+    call AccessDenied for a live process (psutil's `isfile_strict` exists for that purpose) -/
+theorem C14_uninspectable_not_skipped : ¬ UninspectableSkipped_Full cfg := by
+  intro h
+  have h1 := h wDen ⟨rfl, rfl⟩ rfl (by decide)
+  rw [C14_open_files_exact wDen (by decide)] at h1
+  revert h1
+  decide
+
+theorem C14_uninspectable_witness :
+    openFiles cfg wDen.fs (renderWorld wDen) = .exc .accessDenied := by
+  rw [C14_open_files_exact wDen (by decide)]
+  decide
+
+/-- what the accesses answer for `wDen`, written out: fdinfo `pos:\t0\nflags:\t02\n` for both -/
+def procDen : Proc :=
+  { fdDir := .ok
+      [⟨[51], .ok [47, 102], .ok [112, 111, 115, 58, 9, 48, 10, 102, 108, 97, 103, 115, 58, 9, 48, 50, 10]⟩,
+       ⟨[52], .ok [47, 115, 47, 120], .ok [112, 111, 115, 58, 9, 48, 10, 102, 108, 97, 103, 115, 58, 9, 48, 50, 10]⟩]
+    alive := true }
+
+theorem C14_denied_stat_AccessDenied : openFiles cfg fsDen procDen = .exc .accessDenied := by decide
+
+/-- a variant whose `isfile_strict` answered False on EACCES would return a list that silently
+    lacks descriptor 4 -/
+theorem C14_denied_stat_swallowed_drops_silently :
+    openFiles { cfg with isfileDeniedRaises := false } fsDen procDen
+      = .ok [⟨[47, 102], 3, 0, mRp, 2⟩] := by decide
+
+/-- a variant whose `wrap_exceptions` lacked the PermissionError row would leak the bare OSError -/
+theorem C14_denied_needs_wrap :
+    openFiles { cfg with wrapPermAD := false } fsDen procDen = .exc .permissionError := by decide
 
 /-- the listed descriptors are exactly the regular ones: sockets, pipes, anonymous inodes,
     devices and relative targets are never reported -/
@@ -147,22 +226,101 @@ theorem C14_only_regular_listed (fs : FS) (d : Fd) (f : POpenFile) (h : listed f
   rename_i path del
   exact ⟨path, del, rfl, rfl, h.1, h.2.symm⟩
 
-/-- **a vanished process gives NoSuchProcess** (never a partial list, never a raw OSError) -/
-theorem C14_gone_process_NSP (w : World) (hwf : ∀ d ∈ w.fds, WFFd w.fs d) (h : w.vanished = true) :
+/-- the same at the level of one loop iteration of the code, with the real predicate's three
+    answers (regular file / something else or nothing / refused): the ONLY way an entry is
+    produced is a still-open `regular` descriptor whose absolute path was stat'ed successfully
+    and is a regular file. In particular a relative target is never stat'ed (it is not listed
+    even when a regular file of that name exists relative to the monitor's cwd), a device /
+    directory / FIFO / dangling path is not listed, and a refused stat never yields an entry. -/
+theorem C14_only_regular_listed_by_scan (fs : FS) (d : Fd) (hwf : WFFd fs d) (f : POpenFile)
+    (h : scanOne cfg fs (renderFd d) = .item f) :
+    ∃ path del, d.kind = .regular path del ∧ d.closesAt = none ∧ fs.isFile path = true ∧
+      deniedFd fs d = false ∧ f = ⟨path, d.n, d.pos, Spec.mode d.flags, d.flags⟩ := by
+  rw [scanOne_render cfg cfg_good_scan cfg_good_access C14_mode_total fs d hwf] at h
+  rcases Bool.eq_false_or_eq_true (deniedFd fs d) with hd | hd
+  · simp [hd] at h
+  · rcases Bool.eq_false_or_eq_true (hits fs d) with hh | hh
+    · simp [hd, hh] at h
+    · cases hl : listed fs d with
+      | none => simp [hd, hh, hl] at h
+      | some g =>
+        simp only [hd, hh, hl, Bool.false_eq_true, if_false, Step.item.injEq] at h
+        subst h
+        obtain ⟨path, del, h1, h2, h3, h4⟩ := C14_only_regular_listed fs d g hl
+        exact ⟨path, del, h1, h2, h3, hd, h4⟩
+
+/-- a relative link text naming an existing regular file (relative to the monitor's cwd), a
+    directory and a FIFO-like absolute path: none is listed, none is an error -/
+def fsRel : FS := { isFile := fun p => p == [102], pathExists := fun p => p == [102] || p == [47, 100] }
+
+def procRel : Proc :=
+  { fdDir := .ok [⟨[51], .ok [102], .ok [112, 111, 115, 58, 9, 48, 10, 102, 108, 97, 103, 115, 58, 9, 48, 50, 10]⟩,
+      ⟨[52], .ok [47, 100], .ok [112, 111, 115, 58, 9, 48, 10, 102, 108, 97, 103, 115, 58, 9, 48, 50, 10]⟩]
+    alive := true }
+
+example : openFiles cfg fsRel procRel = .ok [] := by decide
+
+/-- **a vanished process gives NoSuchProcess** (never a partial list, never a raw OSError),
+    unless the monitor was refused before the process went away -/
+theorem C14_gone_process_NSP (w : World) (hwf : ∀ d ∈ w.fds, WFFd w.fs d) (h : w.vanished = true)
+    (hi : w.goneBefore = true ∨ w.denied = false) :
     openFiles cfg w.fs (renderWorld w) = .exc .noSuchProcess := by
   rw [C14_open_files_exact w hwf]
-  simp [expectedOpenFiles, h]
+  rcases hi with hi | hi <;> simp [expectedOpenFiles, h, hi]
 
 /-- **num_fds counts every descriptor**, of whatever kind, closing or not -/
-theorem C14_num_fds (w : World) : numFds (renderWorld w) = expectedNumFds w := by
+theorem C14_num_fds (w : World) : numFds cfg (renderWorld w) = expectedNumFds w := by
+  have ha := cfg_good_access
   unfold numFds renderWorld expectedNumFds
   cases hgb : w.goneBefore with
-  | true => simp [goneExc, wrap, wrapExc, World.vanished, hgb]
+  | true => simp [fileExc, goneExc, wrap, wrapExc, World.vanished, hgb]
   | false =>
-    simp only [Bool.false_eq_true, if_false, wrap, List.length_map]
-    cases hda : w.diesAt with
-    | none => simp [World.seen, hda]
-    | some k => simp [World.seen, hda, killFrom_length]
+    cases hdd : w.dirDenied with
+    | true => simp [fileExc, wrap, wrapExc, ha.wrapPermAD]
+    | false =>
+      simp only [Bool.false_eq_true, if_false, wrap, List.length_map]
+      cases hda : w.diesAt with
+      | none => simp [World.seen, hda]
+      | some k => simp [World.seen, hda, killFrom_length]
+
+/-! ### zombies and refused directories (any file system, any state of the rest) -/
+
+/-- **a zombie holds no descriptors**: its (readable) descriptor directory is empty, so
+    `open_files()` is `[]` and `num_fds()` is 0 — not ZombieProcess, not an error -/
+theorem C14_zombie_no_descriptors (fs : FS) :
+    openFiles cfg fs { fdDir := .ok [], alive := true, zombie := true } = .ok [] ∧
+    numFds cfg { fdDir := .ok [], alive := true, zombie := true } = .ok 0 := by
+  constructor <;> rfl
+
+/-- **ENOENT / ESRCH about a zombie is ZombieProcess**, never NoSuchProcess (the pid is still
+    there) and never a bare OSError: from the descriptor directory and from `/proc/pid/io` -/
+theorem C14_zombie_errors (fs : FS) (e : GoneErr) :
+    openFiles cfg fs { fdDir := .err (.gone e), alive := true, zombie := true } = .exc .zombieProcess ∧
+    numFds cfg { fdDir := .err (.gone e), alive := true, zombie := true } = .exc .zombieProcess ∧
+    ioCounters cfg true (.err (.gone e)) true = .exc .zombieProcess := by
+  have ha := cfg_good_access
+  cases e <;>
+    simp [openFiles, openFilesBody, numFds, ioCounters, ioCountersBody, fileExc, goneExc, wrap, wrapExc,
+      ha.wrapZombieFirst]
+
+/-- **a refused descriptor directory / io file is AccessDenied(pid)** whatever the state of the
+    process (running, zombie — whose directory belongs to root —, or just gone) -/
+theorem C14_dir_denied (fs : FS) (alive zombie : Bool) :
+    openFiles cfg fs { fdDir := .err .denied, alive := alive, zombie := zombie } = .exc .accessDenied ∧
+    numFds cfg { fdDir := .err .denied, alive := alive, zombie := zombie } = .exc .accessDenied ∧
+    ioCounters cfg alive (.err .denied) zombie = .exc .accessDenied := by
+  have ha := cfg_good_access
+  simp [openFiles, openFilesBody, numFds, ioCounters, ioCountersBody, fileExc, wrap, wrapExc, ha.wrapPermAD]
+
+/-- a zombie is a process like any other for `open_files()`/`num_fds()`: the `zombie` flag of
+    the world does not change the promised answer (stated through `C14_open_files_exact`, whose
+    right-hand side does not mention it); here: a zombie whose table is empty -/
+theorem C14_zombie_world (w : World) (hz : w.zombie = true) (he : w.fds = [])
+    (hg : w.goneBefore = false) (hd : w.dirDenied = false) :
+    openFiles cfg w.fs (renderWorld w) = .ok [] ∧ numFds cfg (renderWorld w) = .ok 0 := by
+  rw [C14_open_files_exact w (by simp [he]), C14_num_fds]
+  cases hda : w.diesAt <;>
+    simp [expectedOpenFiles, expectedNumFds, World.denied, World.vanished, World.seen, hg, hd, he, hda, killFrom]
 
 /-- the fdinfo record round-trips for every offset and flag word: `pos:` is read as decimal
     and `flags:` as OCTAL (the kernel prints `0%o`), whatever follows in the file -/
@@ -203,16 +361,16 @@ theorem C14_read_after_close_skipped : openFiles cfg fsW procReadGone = .ok [] :
 
 /-- the hypotheses of the table theorems are satisfiable by a non-trivial table: a regular
     file, a deleted one, a socket, a device, a closing descriptor -/
-example : ∃ w : World, Live w ∧ (∀ d ∈ w.fds, WFFd w.fs d) ∧ w.fds.length = 7 ∧
+example : ∃ w : World, Live w ∧ Inspectable w ∧ (∀ d ∈ w.fds, WFFd w.fs d) ∧ w.fds.length = 7 ∧
     (w.fds.filterMap (listed w.fs)).length = 1 :=
-  ⟨⟨[⟨3, .regular [47, 102] false, 7, 0o102001, [], none⟩,
-     ⟨4, .regular [47, 103] true, 0, 2, [], none⟩,
-     ⟨5, .socket 99, 0, 2, [], none⟩,
-     ⟨6, .device [47, 100], 0, 2, [], none⟩,
-     ⟨7, .regular [47, 102] false, 1, 1, [], some (.beforeFdinfo .esrch)⟩,
-     ⟨8, .regular [47, 102] false, 1, 1, [], some (.duringFdinfo false .enoent)⟩,
-     ⟨9, .regular [47, 102] false, 1, 1, [], some (.duringFdinfo true .esrch)⟩], fsW, false, none⟩,
-   ⟨rfl, rfl⟩, by decide, rfl, by decide⟩
+  ⟨⟨[⟨3, .regular [47, 102] false, 7, 0o102001, [], none, none⟩,
+     ⟨4, .regular [47, 103] true, 0, 2, [], none, none⟩,
+     ⟨5, .socket 99, 0, 2, [], none, none⟩,
+     ⟨6, .device [47, 100], 0, 2, [], none, none⟩,
+     ⟨7, .regular [47, 102] false, 1, 1, [], some (.beforeFdinfo .esrch), none⟩,
+     ⟨8, .regular [47, 102] false, 1, 1, [], some (.duringFdinfo false .enoent), none⟩,
+     ⟨9, .regular [47, 102] false, 1, 1, [], some (.duringFdinfo true .esrch), none⟩], fsW, false, none, false, false⟩,
+   ⟨rfl, rfl⟩, by unfold Inspectable; decide, by decide, rfl, by decide⟩
 
 /-! ## io_counters -/
 
@@ -284,7 +442,18 @@ theorem C14_io_bad_value_tolerated : ioCounters cfg true (.ok ioBadValue) = .ok 
   decide
 
 /-- a missing `/proc/<pid>/io` of a process that is gone is NoSuchProcess -/
-theorem C14_io_gone (e : GoneErr) : ioCounters cfg false (.err e) = .exc .noSuchProcess := by
-  cases e <;> rfl
+theorem C14_io_gone (e : GoneErr) : ioCounters cfg false (.err (.gone e)) = .exc .noSuchProcess := by
+  have ha := cfg_good_access
+  cases e <;> simp [ioCounters, ioCountersBody, fileExc, goneExc, wrap, wrapExc]
+
+/-- a zombie's `/proc/pid/io` is still served by the kernel (to root): the six counters come
+    back exactly as for a running process -/
+theorem C14_io_zombie_roundtrip (a : IoAcct) :
+    ioCounters cfg true (.ok (renderIo a)) true = .ok (expectedIoAcct a) := by
+  have h := C14_io_roundtrip a
+  unfold ioCounters at h ⊢
+  cases hb : ioCountersBody cfg (.ok (renderIo a)) with
+  | ok v => rw [hb] at h; simpa [wrap] using h
+  | exc e => rw [hb] at h; simp [wrap] at h
 
 end Psutil.C14
